@@ -175,6 +175,23 @@ def mode_class_owner(spec, j):
     return j
 
 
+# ---------------------------------------------------------------------------
+# default values of __init__ parameters: cc["defaults"] = {parameter: kind}
+# ---------------------------------------------------------------------------
+# kind: "None" | "number" (3 for an int annotation, else 1.0) | "false" | "object" (a fresh instance of the annotated class when
+# that is a generated data class, else object()) | "pool:<oid>" (an object of the pool -- typically one the robot stores under
+# ANOTHER name).  The library never looks at them: every annotated parameter is an injection request.
+DEFAULT_KINDS = ["None", "number", "object", "pool"]
+
+
+def default_kind(dk):
+    return "pool-object" if dk.startswith("pool:") else dk
+
+
+def default_text(dk):
+    return {"None": "None", "number": "a number", "false": "False", "object": "a fresh object"}.get(dk, "another object of the robot (%s)" % dk)
+
+
 class BoundState:
     """what the harness sees of a descriptor-backed attribute at one moment"""
 
@@ -483,9 +500,29 @@ def build(spec):
                             setattr(self, n, kw[v[1]])
                         else:
                             setattr(self, n, val(v))
-                src = "def __init__(self%s):\n    _impl_%d(self%s)\n" % (
-                    "".join(", %s" % p for p in params), k, "".join(", %s=%s" % (p, p) for p in params))
                 g = ns.__dict__           # forward references in the annotations resolve here
+                dfl = cc.get("defaults") or {}
+                sig = []
+                for p in params:
+                    if p in dfl:        # `p: T = <default>`: the default object lives in the module namespace
+                        dk, form = dfl[p], dict((x[0], x[1]) for x in init)[p]
+                        cid = form[1] if form[0] in ("cls", "fwd") else None
+                        g["_dflt_%d_%s" % (k, p)] = (None if dk == "None" else False if dk == "false" else
+                                                    (3 if cid == 1 else 1.0) if dk == "number" else
+                                                    pool[int(dk[5:])] if dk.startswith("pool:") else
+                                                    (cls_of[cid]() if cid is not None and 20 <= cid < 100 and cid in cls_of else object()))
+                        sig.append("%s=_dflt_%d_%s" % (p, k, p))
+                    else:
+                        sig.append(p)
+                # parameters without a default cannot follow one with a default unless they are keyword-only
+                seen_default, kwonly = False, False
+                for x in sig:
+                    if "=" in x:
+                        seen_default = True
+                    elif seen_default:
+                        kwonly = True
+                src = "def __init__(self%s%s):\n    _impl_%d(self%s)\n" % (
+                    ", *" if kwonly else "", "".join(", %s" % x for x in sig), k, "".join(", %s=%s" % (p, p) for p in params))
                 g["_impl_%d" % k] = __init__
                 exec(src, g)
                 f = g.pop("__init__")
@@ -923,15 +960,18 @@ def analyse(spec, inherited):
             callable_reqs.append((where, callables[o], "plain-name" if a in m else "prefixed-name"))
         return o
     exp_ctor, exp_attr, rel = {}, {}, {}
+    ctor_reqs = []              # (component, parameter, kind of its default | None, "served" | fault kind)
     m = dict(inj)
     for n, k, oid in comps:
         cc = spec["comps"][k]
         args = []
         for p, form in (cc["init"] or []):
+            nf = len(faults)
             if p.startswith("_"):
                 faults.append(("ctor", n, p, "private-param", 1))
-                continue
-            args.append((p, req(m, n, p, form, "ctor")))
+            else:
+                args.append((p, req(m, n, p, form, "ctor")))
+            ctor_reqs.append((n, p, (cc.get("defaults") or {}).get(p), faults[nf][3] if len(faults) > nf else "served"))
         exp_ctor[n] = args
         m[n] = oid
     nth_of = {n: nth for n, k, nth in comp_instances(spec, set(rattrs))}
@@ -949,7 +989,7 @@ def analyse(spec, inherited):
             if a.startswith("_") or a in has:
                 continue
             exp_attr[("m", j, a)] = req(m, md["name"], a, form, "mode")
-    return {"comps": comps, "faults": faults, "exp_ctor": exp_ctor, "exp_attr": exp_attr, "rel": rel,
+    return {"comps": comps, "faults": faults, "exp_ctor": exp_ctor, "exp_attr": exp_attr, "rel": rel, "ctor_reqs": ctor_reqs,
             "info": info, "inj": inj, "combos": combos, "callable_reqs": callable_reqs, "callables": callables,
             "name_reqs": name_reqs}
 
@@ -1003,9 +1043,16 @@ def oracle(spec, res):
         return v
     if faults:
         f = faults[0]
+        dnote = ""
+        if f[0] == "ctor":
+            dk = [d for (cn, p, d, _) in an["ctor_reqs"] if cn == f[1] and p == f[2] and d]
+            got = [o for (cn, _, kws) in res.get("ctor", []) if cn == f[1] for p, o in kws if p == f[2]]
+            if dk:
+                dnote = "; the parameter declares a default (%s), which is no substitute: the constructor received %r" % (
+                    default_text(dk[0]), got[0] if got else "?")
         v.append(("started-with-%s-dependency/%s" % (f[3], f[0]),
                   "startup succeeded although the %s request %s.%s is %s (clause: 'if no such object exists or it is not an "
-                  "instance of the annotated type, startup fails with an injection error')" % (f[0], f[1], f[2], f[3])))
+                  "instance of the annotated type, startup fails with an injection error')%s" % (f[0], f[1], f[2], f[3], dnote)))
         return v
     b = types.SimpleNamespace(spec=spec)
     order = res["order"]
@@ -1014,7 +1061,10 @@ def oracle(spec, res):
         return v
     for n, oid, kws in res["ctor"]:
         if [[p, o] for p, o in an["exp_ctor"][n]] != kws:
-            v.append(("ctor-argument", "constructor of %s got %r, robot attributes and earlier components give %r" % (n, kws, an["exp_ctor"][n])))
+            dfl = {p: d for (cn, p, d, _) in an["ctor_reqs"] if cn == n and d}
+            v.append(("ctor-argument", "constructor of %s got %r, robot attributes and earlier components give %r%s" % (
+                n, kws, an["exp_ctor"][n], ("; declared defaults (never to be used): %s" % ", ".join(
+                    "%s=%s" % (p, default_text(d)) for p, d in sorted(dfl.items()))) if dfl else "")))
             return v
     kmap = {n: k for n, k, _ in an["comps"]}
 
@@ -1188,7 +1238,16 @@ def emit_case(spec, res):
     strict = len(classes) <= 1
     ir = "(Build_impl_result %s %s %s)" % (coq_nat(res["outcome"]), coq_bool(strict), obs)
     env = spec_env(spec)
-    return "(%s, (Build_env %s %s), %s, %s)" % (pairs, coq_bool(env["fms"]), coq_bool(env["enabled"]), robot, ir)
+    dd = []         # the defaults the component classes declare, per component (the model carries them along, unread)
+    for n, form, i in robot_hints(spec):
+        dfl = (spec["comps"][form[1]].get("defaults") or {}) if form[0] == "comp" else {}
+        if dfl:
+            ents = []
+            for q, dk in sorted(dfl.items()):
+                ents.append("(%s, %s)" % (coq_string(q), cval(int(dk[5:])) if dk.startswith("pool:") and int(dk[5:]) in an_info else
+                                          "None" if dk == "None" else "(Some (Build_obj 4997%nat 0%nat true))"))
+            dd.append("(%s, %s)" % (coq_string(n), coq_list(ents)))
+    return "(%s, %s, (Build_env %s %s), %s, %s)" % (pairs, coq_list(dd), coq_bool(env["fms"]), coq_bool(env["enabled"]), robot, ir)
 
 
 HEADER = ("From Coq Require Import List String Bool Arith.\nFrom RV Require Import Inject.Model.\n"
@@ -1196,8 +1255,8 @@ HEADER = ("From Coq Require Import List String Bool Arith.\nFrom RV Require Impo
 
 
 def cases_file(terms):
-    return (HEADER + "Definition cases : list (list (cls * cls) * env * robot * impl_result) :=\n%s.\n"
-            "Eval vm_compute in (bad_in 0 cases).\n" % coq_list(terms))
+    return (HEADER + "Definition cases : list (list (cls * cls) * list (name * init_defaults) * env * robot * impl_result) :=\n%s.\n"
+            "Eval vm_compute in (bad_dflt 0 cases).\n" % coq_list(terms))
 
 
 # ---------------------------------------------------------------------------
@@ -1505,6 +1564,10 @@ class Gen:
                         continue
                     used.add(p)
                     cc["init"].append([p, form])
+                    if r.random() < 0.4:        # `p: T = <default>`; the default is never an input of the injection
+                        others = [x[0] for x in self.pool]
+                        dk = r.choice(["None", "number", "object"] + (["pool:%d" % r.choice(others)] if others else []))
+                        cc.setdefault("defaults", {})[p] = dk
                     if r.random() < 0.4 and not p.startswith("_"):
                         tgt = r.choice([p, p + "_kept", r.choice(self.attr_names)])
                         if tgt not in pres:
@@ -1690,8 +1753,31 @@ def product_specs(rng, reps):
                     sp = product_spec(rng, tkind, plain, pref, embed=(rep % 2 == 1),
                                       attr_name=rng.choice(ODD_NAMES) if rep % 3 == 2 else None)
                     sp["env"] = {"fms": (rep // 3) % 2 == 1, "enabled": rep % 6 == 4 or rep % 12 == 2}
+                    if tkind == "ctor" and rep % 3 != 0:      # four of every six constructor robots declare a default
+                        give_default(sp, rng, ["None", "number", "object", "pool"][(rep + rep // 3) % 4])
                     out.append(sp)
     return out
+
+
+def give_default(spec, rng, dkind, k=None, p=None):
+    """declare a default of the given kind for the constructor parameter p (default: the first) of class k (default: the last)"""
+    k = len(spec["comps"]) - 1 if k is None else k
+    cc = spec["comps"][k]
+    if not cc["init"]:
+        return
+    p = cc["init"][0][0] if p is None else p
+    if dkind == "pool":
+        form = [f for q, f in cc["init"] if q == p][0]
+        ft = form_type(form)
+        up = parents_of(spec)
+        right = [x[0] for x in spec["pool"] if ft[0] == "type" and is_sub(up, x[2] if x[1] == "inst" else KIND_CLS[x[1]], ft[1])]
+        any_ = [x[0] for x in spec["pool"]]
+        if not any_:
+            dkind = "object"
+        else:
+            dkind = "pool:%d" % rng.choice(right or any_)
+    cc.setdefault("defaults", {})[p] = dkind
+
 
 
 def name_specs(rng):
@@ -1981,6 +2067,43 @@ def bound_spec(rng, marker, target, rstate, kind, truthy, embed, annotated=True)
     return spec
 
 
+def default_specs(rng, reps=1):
+    """Constructor parameters that declare a DEFAULT value, enumerated:
+      what is wrong with the request {nothing, absent, wrong type under the plain name (also with a right object under
+      '<component>_<name>'), wrong type under the prefixed name only, None, None + wrong prefixed, bound method, property,
+      Optional / union / literal annotation, alias of another class, an earlier component of another class, a private
+      parameter, a component declared later}
+      x the default {None, a number, a fresh object of the annotated class, another object of the robot}
+      x {alone, among well-formed components}; every second robot has a second, well-served parameter (with or without a
+    default of its own).  The component must get the robot's objects and never a default; a parameter that cannot be
+    served stops start-up."""
+    out = []
+    n = 0
+    for _ in range(reps):
+        for fault in ["none"] + list(BASIC_FAULTS) + EXTRA_FAULTS + CTOR_FAULTS:
+            for dkind in DEFAULT_KINDS:
+                for sib in ("alone", SIBLINGS[n % 3]):
+                    n += 1
+                    sp = fault_spec(rng, "ctor", fault, sib)
+                    k = [i for i, cc in enumerate(sp["comps"]) if cc["init"]][0]
+                    cc = sp["comps"][k]
+                    give_default(sp, rng, dkind, k=k)
+                    if n % 2 == 0 and "also" not in {x[0] for x in sp["rattrs"]}:
+                        oid = len(sp["pool"]) + 1
+                        sp["pool"].append([oid, "str", 0])
+                        sp["rattrs"].append(["also", rng.choice(["class", "create"]), "plain", oid])
+                        sp["rattrs"].sort(key=lambda x: x[0])
+                        cc["init"].insert(rng.randint(0, len(cc["init"])), ["also", ["cls", 2]])
+                        if n % 4 == 0:
+                            give_default(sp, rng, rng.choice(DEFAULT_KINDS), k=k, p="also")
+                    sp["env"] = rand_env(rng)
+                    nf = len(analyse(sp, INH_STATIC)["faults"])
+                    if (nf == 0) != (fault == "none"):
+                        raise AssertionError("default family: %s/%s has %d faults" % (fault, dkind, nf))
+                    out.append(sp)
+    return out
+
+
 SHARE_PATTERNS = [[1, 0], [0, 1], [1, 0, 0], [0, 1, 0], [0, 0, 1], [1, 1, 0], [0, 1, 1], [1, 0, 1]]
 SHARE_ROBOT = ["served-by-name", "served-by-prefixed-name-per-instance", "unserved"]
 SHARE_MECH = ["components/set-by-nth-constructed-instance", "components/set-iff-injected-ctor-flag", "modes/assigned-on-the-instance"]
@@ -2059,6 +2182,8 @@ def shared_spec(rng, mech, pat, rstate, pkind, embed):
             cc["presets"] = [[enc, "init_nth:%d" % i, pvalue()] for i, bit in enumerate(pat) if bit]
         else:
             cc["init"] = [["sim", ["cls", 7]]]
+            if rng.random() < 0.5:
+                cc["defaults"] = {"sim": "false"}
             cc["presets"] = [[enc, "init_if:sim", pvalue()]]
             for i, bit in zip(insts, pat):
                 spec["rattrs"].append(["%s_sim" % i, lvl(), "plain", new_obj("true" if bit else "false")])
@@ -2283,6 +2408,10 @@ def shrink(spec, fp):
                     c = copy.deepcopy(sp)
                     c["comps"][k][key] = False
                     yield c
+            for q in sorted(cc.get("defaults") or {}):
+                c = copy.deepcopy(sp)
+                del c["comps"][k]["defaults"][q]
+                yield c
         for j, md in enumerate(sp["modes"]):
             for i in range(len(md["hints"])):
                 c = copy.deepcopy(sp)
@@ -2380,7 +2509,9 @@ def run(ctx):
     specs += bspecs
     sspecs = shared_specs(ctx.rng, 1 if ctx.tier == "quick" else 6)
     specs += sspecs
-    while len(specs) < ncorpus + n_random + len(nspecs) + len(fspecs) + len(bspecs) + len(sspecs):      # the enumerations do not eat into the random part
+    dspecs = default_specs(ctx.rng, 1 if ctx.tier == "quick" else 6)
+    specs += dspecs
+    while len(specs) < ncorpus + n_random + len(nspecs) + len(fspecs) + len(bspecs) + len(sspecs) + len(dspecs):      # the enumerations do not eat into the random part
         specs.append(gen_spec(ctx.rng))
     outs = run_many(specs)
     cases, terms = [], []
@@ -2401,6 +2532,8 @@ def run(ctx):
         if not an["faults"]:
             ctx.count("fault-free|FMS-%s|%s" % ("attached" if env["fms"] else "not-attached",
                                                 "with-modes" if any(md["hints"] for md in spec["modes"]) else "no-mode-request"))
+        for cn, q, dk, outc in an["ctor_reqs"]:
+            ctx.count("ctor-parameter=%s|request:%s" % ("default:" + default_kind(dk) if dk else "no-default", outc))
         for what, bits in shared_stats(spec):
             ctx.count("one-class-several-instances=%s|already-has-the-annotated-attribute=%s|%s" % (
                 what, bits, "well-formed" if not an["faults"] else "must-fail"))
@@ -2461,7 +2594,7 @@ def run(ctx):
                 json.dumps(cases[i0][0]), json.dumps({x: cases[i0][1].get(x) for x in ("outcome", "exc", "ctor", "setups", "final")}))
         elif rc != 0:
             bad_total += list(range(k * per, min(len(cases), (k + 1) * per)))
-        ctx.obligation("corr:%s (Inject.Model startup_in/observe == _create_components, %d robots)" % (name, len(sh[k])), ok, detail)
+        ctx.obligation("corr:%s (Inject.Model startup_dflt/observe == _create_components, %d robots)" % (name, len(sh[k])), ok, detail)
     samples = []
     for spec, res in cases[ncorpus + 100:ncorpus + 103]:
         samples.append({"robot": describe(spec), "outcome": res["outcome"], "ctor": res.get("ctor"), "final": res.get("final")})
@@ -2493,7 +2626,10 @@ def run(ctx):
                 "instances differ in which annotated attributes they already have (set by the i-th constructed instance only, set iff "
                 "a constructor flag injected from '<component>_sim' is true, assigned on one mode instance) are enumerated over the "
                 "patterns 10 01 100 010 001 110 011 101 x {served by name, per instance under the prefixed name, unserved} and "
-                "drawn in the random part (one-class-several-instances=*), "
+                "drawn in the random part (one-class-several-instances=*); constructor parameters declare DEFAULT values (None, a "
+                "number, a fresh object, another object of the robot) in 40% of the random parameters, four of every six constructor "
+                "robots of the product and an enumeration of 16 request states x 4 default kinds x {alone, among well-formed "
+                "components} (ctor-parameter=*): the constructor must receive the robot's object, never the default, "
                 "then 60% fault-free / 30% one planted fault / 10% wild; non-trivial = started with >= 2 components and a "
                 "cross-component reference or >= 3 injected attributes, or exactly one fault",
         "samples": samples, "exhaustive": False, "corpus_cases": ncorpus})
